@@ -28,6 +28,43 @@ def _clamped(b: Value, BUF: Value):
     if not (b[0] == "call" and b[1] == ("builtin", "max") and len(b[2]) == 2):
         return None
     has_ln = any(x[0] == "call" and callee_is(x[1], "last_newline") for x in b[2])
+    BND = ("attr", ("param", "self"), "boundary")
+
+    def _len_of(t):
+        """len(t) as {atom: coeff} with atoms 'buf', 'bnd', 1 - for the buffer, the boundary, byte constants and their concatenations"""
+        if t == BUF:
+            return {"buf": 1}
+        if t == BND:
+            return {"bnd": 1}
+        if t[0] == "const" and isinstance(t[1], (bytes, str)):
+            return {1: len(t[1])}
+        if t[0] == "binop" and t[1] == "Add":
+            l_, r_ = _len_of(t[2]), _len_of(t[3])
+            if l_ is None or r_ is None:
+                return None
+            return {k: l_.get(k, 0) + r_.get(k, 0) for k in set(l_) | set(r_)}
+        return None
+
+    def _lin(t):
+        if t[0] == "const" and isinstance(t[1], int) and not isinstance(t[1], bool):
+            return {1: t[1]}
+        if t[0] == "call" and t[1] == ("builtin", "len") and len(t[2]) == 1:
+            return _len_of(t[2][0])
+        if t[0] == "binop" and t[1] in ("Add", "Sub"):
+            l_, r_ = _lin(t[2]), _lin(t[3])
+            if l_ is None or r_ is None:
+                return None
+            sg = 1 if t[1] == "Add" else -1
+            return {k: l_.get(k, 0) + sg * r_.get(k, 0) for k in set(l_) | set(r_)}
+        return None
+
+    for x in b[2]:
+        # len(buffer) - len(boundary) - K in any arithmetic spelling: len(buffer) - len(b"--" + self.boundary) - 2, ...
+        lf = _lin(x)
+        if lf is not None:
+            lf = {k: v for k, v in lf.items() if v != 0}
+            if lf.get("buf") == 1 and lf.get("bnd") == -1 and set(lf) <= {"buf", "bnd", 1} and lf.get(1, 0) <= 0:
+                return -lf.get(1, 0), has_ln
     for x in b[2]:
         # ((len(buf) - len(self.boundary)) - K)
         if x[0] == "binop" and x[1] == "Sub" and x[3][0] == "const" and isinstance(x[3][1], int):
@@ -415,7 +452,9 @@ def run(p: Program, rep: Report, tier: str) -> None:
                 verdicts["call"] = f"{helper}({', '.join(show(x)[:30] for x in a)}, {', '.join(k + '=' + show(v)[:20] for k, v in e.c)})"
             if len(a) >= 3:
                 b_, c_ = a[1], a[2]
-                okb = b_[0] == "call" and b_[1][0] == "attr" and b_[1][2] == "encode" and b_[1][1] == ("sub", OPT, ("const", "boundary")) and len(b_[2]) == 1 and b_[2][0][0] == "const" \
+                # the parameter read as options["boundary"] or as options.get("boundary") (no default: a missing one cannot be encoded)
+                _bsrc = lambda t__: t__ == ("sub", OPT, ("const", "boundary")) or (t__[0] == "call" and t__[1] == ("attr", OPT, "get") and t__[2] == (("const", "boundary"),))  # noqa: E731
+                okb = b_[0] == "call" and b_[1][0] == "attr" and b_[1][2] == "encode" and _bsrc(b_[1][1]) and len(b_[2]) == 1 and b_[2][0][0] == "const" \
                     and str(b_[2][0][1]).lower().replace("_", "-") in ("latin-1", "latin1", "iso-8859-1", "l1")
                 def _unread(t_):
                     # the value comes out of a repository function / class the paths did not open (a public value class, a helper
